@@ -17,7 +17,9 @@ Inductive outcome : Type :=
 | ODecl    (* constructor raises BackendError / FrontendError / MixerError *)
 | OOther   (* constructor raises another Exception *)
 | ODies    (* constructor succeeds, the actor dies in on_start *)
-| OIntr.   (* KeyboardInterrupt raised while the component is being constructed *)
+| OIntr    (* KeyboardInterrupt raised while the component is being constructed *)
+| OLate.   (* the actor is registered and running; a KeyboardInterrupt reaches run() before the
+              start_* helper has returned (e.g. while it waits for ping() / Core._setup) *)
 
 Inductive loop_exit : Type :=
 | LQuit    (* loop.quit(): SIGTERM handler or a frontend asked to quit *)
@@ -107,6 +109,7 @@ Definition start_actor (c : cls) (o : outcome) : M unit :=
   | OOther => raise XOther
   | ODies => register c >> unregister_died c
   | OIntr => raise XKbd
+  | OLate => register c >> raise XKbd
   end.
 
 (* proxy.ping().get() / actor_ref.ask(...): ActorDeadError when the actor died *)
@@ -155,7 +158,15 @@ Fixpoint stop_each (mk : nat -> cls) (i n : nat) : M unit :=
 
 Definition stop_frontends (n : nat) : M unit := stop_each CFrontend 0 n.
 
+(* stop_core: Core._teardown (which saves the state when restore_state is on) is asked of the
+   core proxy, or, when run() was interrupted before start_core returned, of whichever Core
+   actor is registered; then the Core actors are stopped *)
 Definition stop_core (restore : bool) : M unit :=
+  (fun s => if (v_core s || existsb (cls_eqb CCore) (reg s)) && restore
+            then emit ESave s else ret tt s) >> stop_by_class CCore.
+
+(* the code before the fix: teardown only through the local variable `core` *)
+Definition stop_core_old (restore : bool) : M unit :=
   (fun s => if v_core s && restore then emit ESave s else ret tt s) >> stop_by_class CCore.
 
 Definition stop_backends (n : nat) : M unit := stop_each CBackend 0 n.
@@ -182,14 +193,25 @@ Definition finally_block (o : oracle) : M unit :=
   (if o_has_mixer o then stop_mixer else ret tt) >>
   stop_remaining.
 
+Definition finally_block_old (o : oracle) : M unit :=
+  stop_frontends (length (o_frontends o)) >>
+  stop_core_old (o_restore o) >>
+  stop_backends (length (o_backends o)) >>
+  stop_audio >>
+  (if o_has_mixer o then stop_mixer else ret tt) >>
+  stop_remaining.
+
 (* RootCommand.run: (exit status or escaping exception, final state) *)
-Definition run_command (o : oracle) : res Z * st :=
+Definition run_with (fin : oracle -> M unit) (o : oracle) : res Z * st :=
   let '(r, s1) := try_body o st0 in
   let status : Z := match r with Exc XDecl => 1%Z | _ => 0%Z end in
-  match finally_block o s1 with
+  match fin o s1 with
   | (Val _, s2) => (Val status, s2)
   | (Exc e, s2) => (Exc e, s2)
   end.
+
+Definition run_command (o : oracle) : res Z * st := run_with finally_block o.
+Definition run_command_old (o : oracle) : res Z * st := run_with finally_block_old o.
 
 (* ------------------------------------------------------------------------------------ *)
 (* observations                                                                           *)
@@ -231,7 +253,7 @@ Definition cls_of_code (z : Z) : cls :=
 
 Definition outcome_of_code (z : Z) : outcome :=
   (if z =? 0 then OOk else if z =? 1 then ODecl else if z =? 2 then OOther
-   else if z =? 3 then ODies else OIntr)%Z.
+   else if z =? 3 then ODies else if z =? 4 then OIntr else OLate)%Z.
 
 Definition loop_of_code (z : Z) : loop_exit :=
   (if z =? 0 then LQuit else if z =? 1 then LKbd else LExc)%Z.
@@ -263,10 +285,12 @@ Definition obs_eqb (a b : obs) : bool :=
   && (ob_saves a =? ob_saves b)%Z && (ob_left a =? ob_left b)%Z.
 
 (* specification-side characterisations used by the theorems (no reference to the run) *)
-Definition is_intr (o : outcome) : bool := match o with OIntr => true | _ => false end.
+Definition is_intr (o : outcome) : bool := match o with OIntr | OLate => true | _ => false end.
+(* the actor is registered and alive afterwards *)
+Definition is_up (o : outcome) : bool := match o with OOk | OLate => true | _ => false end.
 Definition is_ok (o : outcome) : bool := match o with OOk => true | _ => false end.
 Definition escapes (o : outcome) : bool :=   (* outside _actor_error_handling *)
-  match o with ODecl | OOther | OIntr => true | _ => false end.
+  match o with ODecl | OOther | OIntr | OLate => true | _ => false end.
 
 Definition audio_escapes (o : oracle) : bool :=
   match o_audio o with ODies => o_audio_early o | x => escapes x end.
@@ -276,7 +300,10 @@ Definition reaches_core (o : oracle) : bool :=
   negb (o_has_mixer o && is_intr (o_mixer o)) && negb (audio_escapes o)
   && negb (existsb is_intr (o_backends o)).
 
+(* run() got hold of the core proxy (its local variable `core` is assigned) *)
 Definition core_started (o : oracle) : bool := reaches_core o && is_ok (o_core o).
+(* the core actor is running when the finally block is entered *)
+Definition core_running (o : oracle) : bool := reaches_core o && is_up (o_core o).
 
 (* components of a start loop that end up running: those before the first interrupt
    whose outcome is OOk *)
@@ -284,18 +311,19 @@ Fixpoint alive_from (mk : nat -> cls) (i : nat) (os : list outcome) : list cls :
   match os with
   | [] => []
   | OIntr :: _ => []
+  | OLate :: _ => [mk i]
   | OOk :: rest => mk i :: alive_from mk (S i) rest
   | _ :: rest => alive_from mk (S i) rest
   end.
 
 Definition mixer_alive (o : oracle) : list cls :=
-  if o_has_mixer o && is_ok (o_mixer o) then [CMixer] else [].
+  if o_has_mixer o && is_up (o_mixer o) then [CMixer] else [].
 Definition audio_alive (o : oracle) : list cls :=
-  if negb (o_has_mixer o && is_intr (o_mixer o)) && is_ok (o_audio o) then [CAudio] else [].
+  if negb (o_has_mixer o && is_intr (o_mixer o)) && is_up (o_audio o) then [CAudio] else [].
 Definition backends_alive (o : oracle) : list cls :=
   if negb (o_has_mixer o && is_intr (o_mixer o)) && negb (audio_escapes o)
   then alive_from CBackend 0 (o_backends o) else [].
-Definition core_alive (o : oracle) : list cls := if core_started o then [CCore] else [].
+Definition core_alive (o : oracle) : list cls := if core_running o then [CCore] else [].
 Definition frontends_alive (o : oracle) : list cls :=
   if core_started o then alive_from CFrontend 0 (o_frontends o) else [].
 
@@ -312,7 +340,7 @@ Definition expected_status (o : oracle) : Z :=
 (* monitor: the property predicate on an observation (real or modelled) *)
 Definition monitor_core_b (o : oracle) (status : Z) (stops : list cls) (saves left : Z) : bool :=
   stop_order_ok_b stops
-  && (saves =? (if o_restore o && core_started o then 1 else 0))%Z
+  && (saves =? (if o_restore o && core_running o then 1 else 0))%Z
   && (left =? 0)%Z
   && ((status =? 0) || (status =? 1))%Z.
 
